@@ -560,6 +560,33 @@ func scannedExponentIsParameter(fn *ssa.Function) (bool, string) {
 
 // hasReductionTest: see the obligation "reduction-test-present".
 func hasReductionTest(fn *ssa.Function, ql []*big.Int, depth int) bool {
+	// where the function tests with smallerThanModulus at all, one of those tests is applied to
+	// the sum — the destination, or a local holding it — not only to an operand
+	if depth == 0 && len(fn.Params) > 1 {
+		calls, onResult := 0, 0
+		for _, b := range fn.Blocks {
+			for _, in := range b.Instrs {
+				ci, ok := in.(ssa.CallInstruction)
+				if !ok {
+					continue
+				}
+				cal := ci.Common().StaticCallee()
+				if cal == nil || cal.Name() != "smallerThanModulus" || len(ci.Common().Args) == 0 {
+					continue
+				}
+				calls++
+				a := ci.Common().Args[0]
+				if a == ssa.Value(fn.Params[0]) {
+					onResult++
+				} else if _, isAlloc := addrBase(a).(*ssa.Alloc); isAlloc {
+					onResult++
+				}
+			}
+		}
+		if calls > 0 && onResult == 0 {
+			return false
+		}
+	}
 	isLimb := func(v ssa.Value) bool {
 		cv, ok := stripConv(v).(*ssa.Const)
 		if !ok {
@@ -593,6 +620,8 @@ func hasReductionTest(fn *ssa.Function, ql []*big.Int, depth int) bool {
 					continue
 				}
 				if cal.Name() == "smallerThanModulus" {
+					// ... of the sum, i.e. of the destination (testing the operand says nothing
+					// about the result)
 					return true
 				}
 				if fnPkgPath(cal) == "math/bits" && strings.HasPrefix(cal.Name(), "Sub") {
